@@ -8,8 +8,8 @@ import re
 import z3
 
 from mirsym import (Unsupported, PathAbort, UNIT, Unit, Agg, EnumV, BoxV, BoxPtr, ValRef, PlaceRef,
-                    SliceRef, Opaque, FnItem, Model, ClosureAdapter, DowncastView, bv, zand, zor, znot,
-                    zite, ite_val, is_z3, int_info, select, INT_W, strip_paths, split_top, generic_args)
+                    SliceRef, MutSliceRef, Opaque, FnItem, Model, ClosureAdapter, DowncastView, bv, zand, zor, znot,
+                    zite, ite_val, is_z3, zsimp, int_info, select, INT_W, strip_paths, split_top, generic_args)
 
 TRUE = z3.BoolVal(True)
 FALSE = z3.BoolVal(False)
@@ -368,6 +368,10 @@ def m_slice_index_range(ex, m, argv, guard, st, callee):
     r = argv[1]
     lo, hi = r.fields[0], r.fields[1]
     bad = zor(z3.UGT(lo, hi), z3.UGT(hi, s.length))
+    lo_s, hi_s = zsimp(lo), zsimp(hi)
+    if ex.var_bounds and z3.is_bv_value(lo_s) and z3.is_bv_value(hi_s) and lo_s.as_long() <= hi_s.as_long() \
+            and ex.decide_cmp('Le', hi_s, s.length) is True:
+        bad = FALSE
     ex.oblige('panic', zand(guard, bad), 'slice index range out of bounds')
     return zand(guard, znot(bad)), SliceRef(s.backing, s.start + lo, hi - lo)
 
@@ -439,7 +443,7 @@ def m_iter_adapt(ex, m, argv, guard, st, callee):
     if not isinstance(it, Model) or it.kind != 'slice_iter':
         raise Unsupported("iterator adaptor on %r" % (it,))
     which = m.group(1)
-    if not z3.is_bv_value(z3.simplify(it.f['pos'])) or z3.simplify(it.f['pos']).as_long() != 0:
+    if not z3.is_bv_value(zsimp(it.f['pos'])) or zsimp(it.f['pos']).as_long() != 0:
         raise Unsupported("adaptor applied to a started iterator")
     f = dict(it.f)
     if which == 'copied':
@@ -470,41 +474,93 @@ def _iter_get(ex, st, ref):
     return it
 
 
+def _iter_store(ex, st, ref, it, pos):
+    f = dict(it.f)
+    f['pos'] = pos
+    ex.write_cell(st, ref.cell, ref.path, Model('slice_iter', **f))
+    p = zsimp(pos)
+    if z3.is_bv_value(p) and not ref.path:
+        st.ckey[ref.cell] = p.as_long()
+    else:
+        st.ckey.pop(ref.cell, None)
+
+
+def _advance(it, pos):
+    """pos + 1, saturating at the end of the backing store.  A slice iterator is fused, so advancing an
+    exhausted iterator is unobservable; saturating keeps the position concrete."""
+    n = len(it.f['slice'].backing)
+    p = zsimp(pos)
+    if z3.is_bv_value(p):
+        return bv(min(p.as_long() + 1, n), 64)
+    return zite(z3.ULT(pos, bv(n, 64)), pos + bv(1, 64), pos)
+
+
+def _has(it, pos):
+    s = it.f['slice']
+    p = zsimp(pos)
+    if z3.is_bv_value(p) and p.as_long() >= len(s.backing):
+        return FALSE
+    ex = _EX[0]
+    if ex is not None and ex.var_bounds and z3.is_bv_value(zsimp(s.start)) and zsimp(s.start).as_long() == 0:
+        d = ex.decide_cmp('Lt', p, s.length)
+        if d is not None:
+            return z3.BoolVal(d)
+    return zsimp(z3.ULT(pos, s.length))
+
+
+def _item_or_none(it, pos):
+    p = zsimp(pos)
+    if z3.is_bv_value(p) and p.as_long() >= len(it.f['slice'].backing):
+        return None
+    return _iter_item(it, pos)
+
+
 def m_iter_next(ex, m, argv, guard, st, callee):
     it = _iter_get(ex, st, argv[0])
-    pos, s = it.f['pos'], it.f['slice']
-    has = z3.ULT(pos, s.length)
-    item = _iter_item(it, pos)
-    f = dict(it.f)
-    f['pos'] = z3.simplify(zite(has, pos + bv(1, 64), pos))
-    ex.write_cell(st, argv[0].cell, argv[0].path, Model('slice_iter', **f))
-    return guard, option(ex, z3.simplify(has), item)
+    pos = it.f['pos']
+    has = _has(it, pos)
+    item = _item_or_none(it, pos)
+    _iter_store(ex, st, argv[0], it, _advance(it, pos))
+    if item is None:
+        return guard, EnumV(ex.defs.find_enum('Option'), bv(0, 64), {'None': ()})
+    return guard, option(ex, has, item)
 
 
 def m_iter_peek(ex, m, argv, guard, st, callee):
     it = _iter_get(ex, st, argv[0])
-    pos, s = it.f['pos'], it.f['slice']
-    has = z3.simplify(z3.ULT(pos, s.length))
-    return guard, option(ex, has, ValRef(_iter_item(it, pos)))
+    pos = it.f['pos']
+    has = _has(it, pos)
+    item = _item_or_none(it, pos)
+    if item is None:
+        return guard, EnumV(ex.defs.find_enum('Option'), bv(0, 64), {'None': ()})
+    return guard, option(ex, has, ValRef(item))
 
 
 def m_iter_next_if(ex, m, argv, guard, st, callee):
     it = _iter_get(ex, st, argv[0])
-    pos, s = it.f['pos'], it.f['slice']
-    has = z3.simplify(z3.ULT(pos, s.length))
-    item = _iter_item(it, pos)
+    pos = it.f['pos']
+    has = _has(it, pos)
+    item = _item_or_none(it, pos)
+    none = EnumV(ex.defs.find_enum('Option'), bv(0, 64), {'None': ()})
+    if item is None or z3.is_false(has):
+        return guard, none
     gh = zand(guard, has)
-    take = FALSE
-    g_after = guard
-    if ex.feasible(gh):
-        st2 = st.copy()
-        g2, b = call_closure(ex, argv[1], [ValRef(item)], gh, st2)
-        take = zand(has, b)
-        g_after = zor(zand(guard, znot(has)), g2)
-    f = dict(it.f)
-    f['pos'] = z3.simplify(zite(take, pos + bv(1, 64), pos))
-    ex.write_cell(st, argv[0].cell, argv[0].path, Model('slice_iter', **f))
-    return g_after, option(ex, z3.simplify(take), item)
+    if not ex.feasible(gh):
+        return guard, none
+    st2 = st.copy()
+    g2, b = call_closure(ex, argv[1], [ValRef(item)], gh, st2)
+    take = zsimp(zand(has, b))
+    g_after = zor(zand(guard, znot(has)), g2)
+    # fork: the position stays concrete in both outcomes
+    st_take = st.copy()
+    _iter_store(ex, st_take, argv[0], it, _advance(it, pos))
+    some = EnumV(ex.defs.find_enum('Option'), bv(1, 64), {'Some': (item,)})
+    out = []
+    if not z3.is_false(take):
+        out.append((zand(g_after, take), some, st_take))
+    if not z3.is_true(take):
+        out.append((zand(g_after, znot(take)), none, st))
+    return out
 
 
 def m_try_branch(ex, m, argv, guard, st, callee):
@@ -535,7 +591,7 @@ def m_from_residual(ex, m, argv, guard, st, callee):
             raise Unsupported("from_residual without Err")
         e = r.variants['Err'][0]
         # error conversion through From is identity for the cases admitted here
-        src = re.search(r'FromResidual<Result<(?:std::convert::)?Infallible, (.*)>>', callee)
+        src = re.search(r'FromResidual<Result<(?:std::convert::)?Infallible, (.*?)>>>::from_residual$', callee)
         dst = generic_args(m.group(2))
         if src and dst and strip_paths(src.group(1)) != strip_paths(dst[-1]):
             raise Unsupported("from_residual with error conversion %s -> %s" % (src.group(1), dst[-1]))
@@ -554,8 +610,70 @@ def m_str_as_bytes(ex, m, argv, guard, st, callee):
     return guard, as_slice(ex, st, argv[0])
 
 
+# ---- Vec model (fixed backing store, symbolic length) ------------------------------------------
+def new_vec(slots, length, cap):
+    return Model('vec', items=Agg([None] * slots, 'vecitems'), len=length, cap=cap)
+
+
+def _vec_get(ex, st, ref):
+    v = deref_any(ex, st, ref)
+    if not isinstance(v, Model) or v.kind != 'vec':
+        raise Unsupported("not a modelled Vec: %r" % (v,))
+    return v
+
+
+def m_vec_len(ex, m, argv, guard, st, callee):
+    v = _vec_get(ex, st, argv[0])
+    return guard, v.f[{'len': 'len', 'capacity': 'cap'}[m.group(1)]]
+
+
+def m_vec_push(ex, m, argv, guard, st, callee):
+    ref = argv[0]
+    if not isinstance(ref, PlaceRef):
+        raise Unsupported("Vec::push through %s" % type(ref).__name__)
+    v = ex.read_ref(st, ref)
+    items = list(v.f['items'].fields)
+    n = len(items)
+    ln = zsimp(v.f['len'])
+    full = z3.UGE(ln, bv(n, 64))
+    if ex.feasible(zand(guard, full)):
+        ex.oblige('bound', zand(guard, full), 'Vec model with %d slots exceeded' % n)
+    guard = zand(guard, znot(full))
+    if z3.is_bv_value(ln):
+        i = ln.as_long()
+        if i < n:
+            items[i] = argv[1]
+    else:
+        for i in range(n):
+            items[i] = ite_val(ln == bv(i, 64), argv[1], items[i])
+    nv = Model('vec', items=Agg(items, 'vecitems'), len=zsimp(ln + bv(1, 64)),
+               cap=zsimp(zite(z3.UGE(ln, v.f['cap']), ln + bv(1, 64), v.f['cap'])))
+    ex.write_cell(st, ref.cell, ref.path, nv)
+    return guard, UNIT
+
+
+def m_maybeuninit_write(ex, m, argv, guard, st, callee):
+    ref = argv[0]
+    if not isinstance(ref, PlaceRef):
+        raise Unsupported("MaybeUninit::write through %s" % type(ref).__name__)
+    ex.write_cell(st, ref.cell, ref.path, argv[1])
+    return guard, ref
+
+
+def m_fmt_opaque(ex, m, argv, guard, st, callee):
+    return guard, Opaque('fmt')
+
+
+_EX = [None]
+
+
 def register(ex):
+    _EX[0] = ex
     A = ex.add_model
+    A(r'^(?:std::vec::)?Vec::<.*>::(len|capacity)$', m_vec_len, 'Vec::len/capacity (fixed-slot model)')
+    A(r'^(?:std::vec::)?Vec::<.*>::push$', m_vec_push, 'Vec::push (fixed-slot model, growth beyond the slots is a bound obligation)')
+    A(r'^(?:std::mem::)?MaybeUninit::<.*>::write$', m_maybeuninit_write, 'MaybeUninit::write')
+    A(r'^(?:core::fmt::rt::Argument::<.*>::new_\w+|(?:std::fmt::|core::fmt::)?Arguments::<.*>::(?:new|new_const|new_v1|from_str)\b.*)$', m_fmt_opaque, 'fmt::Arguments construction (opaque; only feeds panic messages)')
     A(r'^<(.*) as (?:std::cmp::)?PartialEq(?:<.*>)?>::(eq|ne)$', m_partial_eq, 'PartialEq::eq/ne (structural for primitives and derived impls)')
     A(r'^<(.*) as (?:std::clone::)?Clone>::clone$', m_clone, 'Clone::clone (identity for primitives and derived impls)')
     A(r'^<(?:std::boxed::)?Box<.*> as (?:std::convert::)?AsRef<.*>>::as_ref$', m_box_as_ref, 'Box::as_ref')
